@@ -39,8 +39,63 @@ let at f = function None -> "-" | Some (a, mt) -> Printf.sprintf "%s@%d" (f (Som
 let show_err = function
   | EYSyntax -> "err_ysyntax" | EYWarn -> "err_ywarn" | EYConflict -> "err_yconflict" | ELSyntax -> "err_lsyntax"
   | EInspect -> "err_inspect"
+(* manual-lexer flow (C18/TokModel.v).  case line:
+     M <fixed 0|1> <tfixed 0|1> | <y> | <17 settings> | <mod modok st adc ren> | op ; op ; ... | <renamed>
+   op: <t> Y id syn warn conf toks | <t> S <17 settings> | <t> R mod modok st adc ren | <t> B
+   renamed: the abstract function of C18/TokModel.v as a table  <toks>:<ren>:<code>  (code -1, or no entry: some
+     renamed token name is not an identifier)
+   result, one field per operation: y=<desc@mtime|-> d=<mod>:<desc@mtime>,...   (every module file in OUT_DIR, mods 0..7)
+     build: additionally p=<ok1|ok0|err_*> yw=<0|1> ts=<ok1|ok0|err|panic|-> cp=.. cts=.. cy=<desc|-> ct=<desc|-> *)
+let tsettings_of = function
+  | [md; mok; st; adc; ren] ->
+    { t_mod = nat_of_int md; t_modok = b_of_int mok; t_st = nat_of_int st; t_adc = b_of_int adc; t_ren = nat_of_int ren }
+  | _ -> failwith "tsettings"
+let show_t = function
+  | None -> "-"
+  | Some c -> Printf.sprintf "T%d:%d:%d:%d" (i c.tc_names) (i c.tc_st) (int_of_b c.tc_adc) (i c.tc_mod)
+let show_pres = function
+  | POk true -> "ok1" | POk false -> "ok0" | PErr e -> show_err e
+let show_tres = function
+  | None -> "-" | Some (TOk true) -> "ok1" | Some (TOk false) -> "ok0" | Some TErr -> "err" | Some TPanic -> "panic"
+let manual line =
+  match String.split_on_char '|' line with
+  | [hd; y; c; tc; ops; ren] ->
+    let fixed, tfixed = (match split_ws hd with
+      | ["M"; f; tf] -> (f = "1", tf = "1")
+      | _ -> failwith "head") in
+    let table = List.map (fun w -> match String.split_on_char ':' w with
+      | [a; b; c] -> ((int_of_string a, int_of_string b), int_of_string c)
+      | _ -> failwith "renamed") (split_ws ren) in
+    let renamed toks r =
+      match List.assoc_opt (int_of_nat toks, int_of_nat r) table with
+      | Some n when n >= 0 -> Some (nat_of_int n)
+      | _ -> None in
+    let ops = List.filter (fun s -> String.trim s <> "") (String.split_on_char ';' ops) in
+    let h = List.map (fun o ->
+      match split_ws o with
+      | t :: "Y" :: r -> (nat_of_int (int_of_string t), MBase (EditY (ysrc_of (List.map int_of_string r))))
+      | t :: "S" :: r -> (nat_of_int (int_of_string t), MBase (SetOpt (settings_of (List.map int_of_string r))))
+      | t :: "R" :: r -> (nat_of_int (int_of_string t), SetT (tsettings_of (List.map int_of_string r)))
+      | [t; "B"] -> (nat_of_int (int_of_string t), MBase Build)
+      | _ -> failwith "op") ops in
+    let x0 = init_m (ysrc_of (ints_of y)) { l_id = nat_of_int 0; l_syn = true; l_miss = false }
+        (settings_of (ints_of c)) (tsettings_of (ints_of tc)) in
+    let tr = trace_m renamed fixed tfixed x0 h in
+    String.concat " | " (List.map (fun (x, r) ->
+      let dir = String.concat "," (List.concat (List.map (fun k ->
+        match x.m_tdir (nat_of_int k) with
+        | None -> []
+        | Some f -> [Printf.sprintf "%d:%s" k (at show_t (Some f))]) [0; 1; 2; 3; 4; 5; 6; 7])) in
+      let st = Printf.sprintf "y=%s d=%s" (at show_y x.m_s.s_yout) (if dir = "" then "-" else dir) in
+      match r with
+      | None -> st
+      | Some (res, (cres, (cy, ct))) ->
+        Printf.sprintf "%s p=%s yw=%d ts=%s cp=%s cts=%s cy=%s ct=%s" st (show_pres res.mr_p) (int_of_b res.mr_ywritten)
+          (show_tres res.mr_t) (show_pres cres.mr_p) (show_tres cres.mr_t) (show_y cy) (show_t ct)) tr)
+  | _ -> "BADLINE"
 let () =
   iter_lines (fun line ->
+    if String.length line > 1 && line.[0] = 'M' && line.[1] = ' ' then manual line else
     match String.split_on_char '|' line with
     | [hd; y; l; c; ops; rej] ->
       let m, fixed, tf0 = (match split_ws hd with
